@@ -129,7 +129,8 @@ PROPS = {
     "C08": dict(run=gateway_run(["gc", "cache", "win-gc", "win-evict"], ["cres"])),
     "C09": dict(run=gateway_run(["cache", "query", "win-evict"], ["msub", "munsub", "mreq"])),
     "C10": dict(run=gateway_run(["access", "win-recheck", "win-indirect"], ["mreq", "cres", "cev"])),
-    "C11": dict(run=gateway_run(["cache", "access", "win-evict", "thr-reset1"], ["close", "sockClosed"])),
+    # after a disconnect everything held for the connection must be gone: on these families the cache-release rules count as C11 too
+    "C11": dict(run=gateway_run(["cache", "access", "win-evict", "thr-reset1"], ["close", "sockClosed"], also=("C09",))),
     "C04": dict(run=gateway_run(["access", "cache", "win-recheck", "win-indirect"], ["mres", "cres"])),
     "C05": dict(run=tables.combine(gateway_run(["access", "win-recheck"], ["mreq"]), tables.tables_run(["calllist"], "CanCall"))),
     "C12": dict(run=tables.combine(tables.tables_run(["pattern", "coldiff", "modeldiff"], "reset matching / diff"),
